@@ -7,6 +7,7 @@
    is the entry holding the client. Proofs: Proofs/BrokerProofs.v, BrokerSteps.v, BrokerThms.v. *)
 From Coq Require Import List NArith ZArith Bool.
 From Snow Require Import Model.Broker Proofs.BrokerProofs Proofs.BrokerSteps Proofs.BrokerThms Proofs.BrokerHist Proofs.BrokerUrlHist.
+From Snow Require Import Proofs.BrokerLate.
 Import ListNotations.
 Open Scope N_scope.
 
@@ -28,6 +29,73 @@ Theorem C02_answer_resolved_to_this_poll : forall v br ls s p e c a,
   exists pre post s1, ls = pre ++ L_Answer (e_sid e) a :: post /\ run v (init br) pre = Some s1 /\
                       lookup (e_sid e) (idmap s1) = Some p.
 Proof. exact answer_resolved_to_this_poll. Qed.
+
+(* ---- what a finished exchange leaves behind. A LATE answer - posted after the client's 10 s timer made its select
+   commit to the timeout, but looked up before the client's final critical section removed the session id - is
+   ACCEPTED into the poll's answer channel (C02_late_answer_example: the proxy is told 'success'). It is never
+   delivered: [finished e] = the exchange of this poll is over (in no heap; its client has left the select, or it
+   expired unmatched); [told e] = the response chosen for its client. ---- *)
+
+(* Along ANY continuation (any number of further polls, clients, answers, timer firings) of a reachable state in which
+   poll p's client has timed out: nobody ever receives from p's answer channel (no L_CTakeAnswer p / L_RvAnswer p
+   occurs), and that client's response is and stays 'timed out'. *)
+Theorem C02_late_answer_dies_with_its_poll : forall v br ls s s' p e c,
+  reachable v br s -> nth_error (entries s) p = Some e -> e_cl e = Some c ->
+  (c_pc c = C_Cleanup CTimedOut \/ c_pc c = C_Done CTimedOut) ->
+  run v s ls = Some s' ->
+  ~ In (L_CTakeAnswer p) ls /\ ~ In (L_RvAnswer p) ls /\
+  exists e' c', nth_error (entries s') p = Some e' /\ e_cl e' = Some c' /\
+                (c_pc c' = C_Cleanup CTimedOut \/ c_pc c' = C_Done CTimedOut).
+Proof. exact late_answer_dies_with_its_poll. Qed.
+
+(* the general form: once an exchange is over (client answered or timed out, or the poll expired unmatched - possibly
+   with an early answer still in its channel), from ANY state, its channel is never received from again and what its
+   client was told never changes *)
+Theorem C02_finished_exchange_is_inert : forall v ls s s' p e,
+  run v s ls = Some s' -> nth_error (entries s) p = Some e -> finished e = true ->
+  ~ In (L_CTakeAnswer p) ls /\ ~ In (L_RvAnswer p) ls /\
+  exists e', nth_error (entries s') p = Some e' /\ finished e' = true /\ told e' = told e.
+Proof. exact finished_forever. Qed.
+
+Theorem C02_client_left_is_finished : forall v br s p e c r,
+  reachable v br s -> nth_error (entries s) p = Some e -> e_cl e = Some c ->
+  (c_pc c = C_Cleanup r \/ c_pc c = C_Done r) -> finished e = true /\ told e = Some r.
+Proof. exact reachable_client_left_finished. Qed.
+
+Theorem C02_expired_poll_is_finished : forall v br s p e,
+  reachable v br s -> nth_error (entries s) p = Some e -> e_cl e = None -> e_w e = W_Done PNoMatch -> finished e = true.
+Proof. exact reachable_expired_finished. Qed.
+
+(* ... and the late answer cannot reach the client of a LATER poll q by any other way either: if every answer request of
+   the history that carried a resolved, when it was made, to some other poll (the one whose client had gone) or to
+   nothing, the client of q is never given a. (Contrapositive of C02_answer_resolved_to_this_poll, spelled out.) *)
+Theorem C02_late_answer_never_delivered_later : forall v br ls s q e c a,
+  run v (init br) ls = Some s -> nth_error (entries s) q = Some e -> e_cl e = Some c ->
+  (forall pre post s1 sd, ls = pre ++ L_Answer sd a :: post -> run v (init br) pre = Some s1 ->
+                          lookup sd (idmap s1) <> Some q) ->
+  ~ client_answered c a.
+Proof. exact late_answer_never_delivered_later. Qed.
+
+(* non-vacuity: poll 0 (sid 1) is handed client 0's offer; the client's timer fires and its select commits to the
+   timeout; THEN answer 500 is looked up (still registered), sent and accepted (done_answers: ok = true); the client
+   deregisters. Two further exchanges follow (sids 2, 3) with their own answers 502, 503: each client receives its
+   own; answer 500 is still in poll 0's channel at the end and client 0 was told 'timed out'. *)
+Example C02_late_answer_example :
+  exists s e0 c0 e1 c1 e2 c2,
+    run V1 (init [(7, 9)])
+      [L_Poll 1 NatUnrestricted 1 0; L_Client NatRestricted (Some 7) 100 (Some 0%nat); L_RvOffer 0; L_RvForward 0;
+       L_FireC 0; L_CTake 0; L_Answer 1 500; L_AnswerPut 0; L_CCleanup 0;
+       L_Poll 2 NatUnrestricted 1 0; L_Client NatUnknown (Some 7) 101 (Some 1%nat); L_RvOffer 1; L_RvForward 1;
+       L_Answer 2 502; L_AnswerPut 1; L_CTakeAnswer 1; L_CCleanup 1;
+       L_Poll 3 NatUnrestricted 1 0; L_Client NatRestricted (Some 7) 102 (Some 2%nat); L_RvOffer 2; L_RvForward 2;
+       L_Answer 3 503; L_AnswerPut 2; L_CTakeAnswer 2; L_CCleanup 2] = Some s /\
+    map (fun '(_, sd, a, ok) => (sd, a, ok)) (done_answers s) = [(3, 503, true); (2, 502, true); (1, 500, true)] /\
+    nth_error (entries s) 0 = Some e0 /\ e_cl e0 = Some c0 /\ c_pc c0 = C_Done CTimedOut /\ e_buf e0 = Some 500 /\
+    finished e0 = true /\
+    nth_error (entries s) 1 = Some e1 /\ e_cl e1 = Some c1 /\ c_pc c1 = C_Done (CAnswer 502) /\
+    nth_error (entries s) 2 = Some e2 /\ e_cl e2 = Some c2 /\ c_pc c2 = C_Done (CAnswer 503) /\
+    quiescent s = true.
+Proof. do 7 eexists. vm_compute. repeat split. Qed.
 
 (* Each proxy poll receives at most one offer: in any history (from any state) no poll occurs in two accepted client
    matches - once popped, a poll never returns to the pool (C03_left_pool_forever). *)
